@@ -31,6 +31,12 @@ def resolve_address(addr):
     return sheet, col, row
 
 
+def strip_absolute_markers(ref):
+    """Remove the `$` markers of a reference, not those of its sheet name."""
+    sheet, sep, addr = ref.rpartition('!')
+    return sheet + sep + addr.replace('$', '')
+
+
 def resolve_ranges(ranges, default_sheet='Sheet1'):
     sheet = None
     range_cells = collections.defaultdict(set)
